@@ -178,12 +178,20 @@ impl fmt::Display for CssString {
         if let Some(q) = q {
             out.write_char(q)?;
         }
-        for c in self.value.chars() {
+        let mut chars = self.value.chars().peekable();
+        while let Some(c) = chars.next() {
             if Some(c) == q {
                 out.write_char('\\')?;
                 out.write_char(c)?;
             } else if is_private_use(c) {
                 write!(out, "\\{:x}", c as u32)?;
+                // A following hex digit or blank would be read as
+                // part of the escape.
+                if chars.peek().is_some_and(|n| {
+                    n.is_ascii_hexdigit() || *n == ' ' || *n == '\t'
+                }) {
+                    out.write_char(' ')?;
+                }
             } else {
                 out.write_char(c)?;
             }
